@@ -23,6 +23,7 @@ import Sds.Proofs.Glue2
 import Sds.Proofs.GenEqIdx
 import Sds.Proofs.GenEqLoop4
 import Sds.Proofs.GenEqWM
+import Sds.Proofs.GenEqConstr5
 
 namespace Sds.C04
 open Sds Outcome
@@ -339,5 +340,16 @@ theorem wavelet_matrix_queries_as_translated_from_source {w : WM} {V : List Nat}
    GenEq.wmx_get_eq_of_encodes hc m index,
    GenEq.wmx_value_iter_next_eq m w value rank hv (by rw [hc.width_eq]; exact hc.width_le) hlen,
    GenEq.wmx_predecessor_eq_of_encodes hc m index value hv, GenEq.wmx_successor_eq_of_encodes hc m index value hv⟩
+
+/-! **The wavelet-matrix core as built from a vector, translated from the source on this run**
+(`Generated/FnsConstr5.lean`): the body of `macro_rules! wm_core_from` instantiated at `u64` (the five instances differ only
+in the item type) — the maximum, `bit_len`, the `for level in 0..width` loop with `bit_value = 1 << (width - 1 - level)`,
+the stable partition of `source` into `zeros` / `ones` while one bit per value is pushed, `source = zeros ++ ones`,
+`BitVector::from(raw_data)` — and `WMCore::init_support` (the `iter_mut()` loop calling the four `enable_*`), equal to
+the model's `WMCore.ofValues`, which the query theorems above are about, for every vector of fewer than 2^64 − 63 items. -/
+theorem wm_core_construction_as_translated_from_source (m : Mode) (source : Array Word) (hb : source.size + 63 < U64) :
+    Generated.gen_WMCore_from_u64 m source = ok (WMCore.ofValues (source.toList.map (·.toNat))) ∧
+    (∀ c : WMCore, Generated.gen_WMCore_init_support m c = ok c.initSupport) :=
+  ⟨GenEq.wm_core_from_eq m source hb, GenEq.wm_init_support_eq m⟩
 
 end Sds.C04
